@@ -373,3 +373,23 @@ Theorem C01_reading_examples :
   parse [TL; TAtom 0; TOp (BC CLt); TAtom 1; TR; TOp (BA OAdd); TAtom 2] = None.
 Proof. vm_compute. repeat split. Qed.
 Print Assumptions C01_reading_examples.
+
+(* ---------- the reading, for real texts (Lang/Reader.v) ---------- *)
+From GV Require Import Lang.Lexer Lang.Reader Lang.ReaderFacts Lang.ReaderPos.
+
+(* whatever expression the reader model returns for a token list of a text, it is Parse.parse's reading of the operand /
+   operator / bracket skeleton: canonical (precedence, left associativity), well-sorted, printing back to the skeleton —
+   so the theorems above about `parse` are theorems about texts *)
+Theorem C01_text_expressions_are_read_by_the_grammar : forall reals ts e rest,
+  read_expr reals ts = ROk (e, rest) ->
+  exists x sk, parse sk = Some (rw_shape x) /\ print (rw_shape x) = sk /\ canon (rw_shape x) /\ sorted (rw_shape x) = true /\
+               erel (rw_atoms x) (rw_shape x) e.
+Proof. exact read_expr_is_the_reading. Qed.
+Print Assumptions C01_text_expressions_are_read_by_the_grammar.
+
+(* the tree built for a shape is that shape: same nesting, operators and negations, atom i at leaf i, MathExpression nodes
+   exactly where a mathExpression can stand *)
+Theorem C01_tree_of_a_reading_has_its_shape : forall atoms t ps e r,
+  conv_e atoms t ps = Some (e, r) -> erel atoms t e.
+Proof. exact conv_e_shape. Qed.
+Print Assumptions C01_tree_of_a_reading_has_its_shape.
